@@ -186,6 +186,8 @@ export function* generate({ tier, seed }) {
   for (const host of [...HOSTS, ...CONTENT_HOSTS, ...SOLO_HOSTS]) for (const seq of childSeqs(CHILD_KINDS, exLen)) {
     if ((CONTENT_HOSTS.includes(host) || SOLO_HOSTS.includes(host)) && seq.length > 2) continue;
     if (tier === 'quick' && host !== 'b' && seq.length === 3 && rng.bool(0.7)) continue;
+    // thorough: sequences of four kinds exhaustively on one host, sampled (5%) on the others
+    if (tier !== 'quick' && host !== 'b' && seq.length === 4 && rng.bool(0.95)) continue;
     yield emitChildCase(host, seq);
   }
   const nChildRand = tier === 'quick' ? 8000 : 150000;
